@@ -103,7 +103,7 @@ def is_const(node, value):
 
 
 SHAPE_CALLS = {'numpy.asarray', 'numpy.array', 'numpy.copy', 'numpy.ravel', 'numpy.ascontiguousarray',
-               'numpy.asanyarray', 'numpy.atleast_1d', 'numpy.squeeze'}
+               'numpy.asanyarray', 'numpy.atleast_1d', 'numpy.squeeze', 'builtins.float', 'numpy.float64'}
 SHAPE_METHODS = {'ravel', 'copy', 'flatten', 'squeeze'}
 
 
